@@ -127,11 +127,18 @@ def add_constants_shape(repo, res):
     res.fn(fn)
     ns, reg = fn.params[0], fn.params[1]
     loops = [n for n in fn.body if isinstance(n, ast.For)]
-    if len(loops) != 1 or norm(loops[0].iter) != "physical_constants":
+    if len(loops) != 1 or norm(loops[0].iter) not in ("physical_constants", "physical_constants.items()", "physical_constants.keys()"):
         raise AnalysisError(f"{fn.where()}: loop over physical_constants not found")
     outer = loops[0]
-    cname = norm(outer.target)
-    unpack = [s for s in outer.body if isinstance(s, ast.Assign) and isinstance(s.targets[0], ast.Tuple) and norm(s.value) == f"physical_constants[{cname}]"]
+    if norm(outer.iter) == "physical_constants.items()":
+        if not (isinstance(outer.target, ast.Tuple) and len(outer.target.elts) == 2):
+            raise AnalysisError(f"{fn.where()}: loop over physical_constants.items() without (name, row) target")
+        cname = norm(outer.target.elts[0])
+        row_forms = (norm(outer.target.elts[1]), f"physical_constants[{cname}]")
+    else:
+        cname = norm(outer.target)
+        row_forms = (f"physical_constants[{cname}]",)
+    unpack = [s for s in outer.body if isinstance(s, ast.Assign) and isinstance(s.targets[0], ast.Tuple) and norm(s.value) in row_forms]
     if len(unpack) != 1 or len(unpack[0].targets[0].elts) != 3:
         raise AnalysisError(f"{fn.where()}: row unpacking not found")
     v, u, alts = [norm(e) for e in unpack[0].targets[0].elts]
